@@ -109,6 +109,15 @@ Definition e_linger (v : val) : val :=
   | _ => verr
   end.
 
+(* [unit; connect option; command option; data option] -> effective [connect; command; data] *)
+Definition e_effcfg (v : val) : val :=
+  match v with
+  | VL [VN u; a; b; c] =>
+      let e := eff_ccfg u {| r_connect := dec_opt a; r_command := dec_opt b; r_data := dec_opt c |} in
+      VL [VN (t_connect e); VN (t_command e); VN (t_data e)]
+  | _ => verr
+  end.
+
 (* [ccfg; acfg] -> connect + #command stages * command + data *)
 Definition e_limit (v : val) : val :=
   match v with
@@ -148,6 +157,6 @@ Definition e_model_scopes (v : val) : val :=
 
 Definition entries : list entry :=
   [("c14_server"%string, e_server); ("c14_client"%string, e_client);
-   ("c14_stages"%string, e_stages); ("c14_limit"%string, e_limit); ("c14_linger"%string, e_linger);
+   ("c14_stages"%string, e_stages); ("c14_limit"%string, e_limit); ("c14_effcfg"%string, e_effcfg); ("c14_linger"%string, e_linger);
    ("c14_unguarded"%string, e_unguarded); ("c14_all_guarded"%string, e_all_guarded);
    ("c14_method_scope"%string, e_method_scope); ("c14_model_scopes"%string, e_model_scopes)].
